@@ -359,10 +359,46 @@ func (Engine) Generate(prop string, r *kit.Rand, tier string) *kit.Scenario[Conf
 			k := fmt.Sprintf("%d|%s", x, pt)
 			if held[k] {
 				delete(held, k)
-				sc.Ops = append(sc.Ops, Op{Op: "release", R: x, Point: pt})
+				sc.Ops = append(sc.Ops, Op{Op: "release", R: x, Point: pt, K: kit.Pick(r, []int{0, 1, 1, 2})})
 			} else {
 				held[k] = true
 				sc.Ops = append(sc.Ops, Op{Op: "hold", R: x, Point: pt})
+				if pt == "rib-update" && r.Chance(0.7) {
+					// a neighbour's table changes twice while this router's updates are held back: it fetches both
+					// advertisements, the updates they start wait at the gate and then run latest first
+					var ys [][2]int // (y, z): y a neighbour of x, z another neighbour of y
+					for _, l := range c.Links {
+						for _, e := range [][2]int{{l[0], l[1]}, {l[1], l[0]}} {
+							if e[0] != x && e[1] != x {
+								for _, l2 := range c.Links {
+									if (l2[0] == x && l2[1] == e[0]) || (l2[1] == x && l2[0] == e[0]) {
+										ys = append(ys, e)
+									}
+								}
+							}
+						}
+					}
+					if len(ys) > 0 {
+						e := kit.Pick(r, ys)
+						y, z := e[0], e[1]
+						seq := []Op{{Op: "linkdown", A: y, B: z}, {Op: "advance", Ms: c.DeadMs + 500}, {Op: "deadcheck", R: y}, {Op: "tick", R: y}}
+						for i := 0; i < 12; i++ {
+							seq = append(seq, Op{Op: "deliver", K: 0})
+						}
+						seq = append(seq, Op{Op: "linkup", A: y, B: z}, Op{Op: "tick", R: z}, Op{Op: "tick", R: y})
+						for i := 0; i < 16; i++ {
+							seq = append(seq, Op{Op: "deliver", K: 0})
+						}
+						seq = append(seq, Op{Op: "tick", R: y})
+						for i := 0; i < 12; i++ {
+							seq = append(seq, Op{Op: "deliver", K: 0})
+						}
+						sc.Ops = append(sc.Ops, seq...)
+						delete(held, k)
+						sc.Ops = append(sc.Ops, Op{Op: "release", R: x, Point: pt, K: 1})
+						continue
+					}
+				}
 				// typically: something arrives while held, then the neighbour is declared dead, then the release
 				if r.Chance(0.5) {
 					sc.Ops = append(sc.Ops, Op{Op: "deliver", K: r.Intn(4)}, Op{Op: "deliver", K: r.Intn(4)}, Op{Op: "deliver", K: r.Intn(4)})
@@ -370,7 +406,7 @@ func (Engine) Generate(prop string, r *kit.Rand, tier string) *kit.Scenario[Conf
 						sc.Ops = append(sc.Ops, Op{Op: "advance", Ms: c.DeadMs + 500}, Op{Op: "deadcheck", R: x})
 					}
 					delete(held, k)
-					sc.Ops = append(sc.Ops, Op{Op: "release", R: x, Point: pt})
+					sc.Ops = append(sc.Ops, Op{Op: "release", R: x, Point: pt, K: kit.Pick(r, []int{0, 1, 1, 2})})
 				}
 			}
 		case 11:
@@ -614,7 +650,7 @@ type message struct {
 
 type world struct {
 	gmu              sync.Mutex
-	gates            map[string]chan struct{}
+	gates            map[string]*gate
 	gateWaits        int
 	corruptDelivered int
 	ctx              *kit.Ctx
@@ -670,14 +706,46 @@ func (w *world) fail(class, key, format string, a ...any) {
 
 func (w *world) now() time.Duration { return time.Since(w.start) }
 
-// releaseGate lets the goroutines waiting at one gate (or, with key "", at every gate) continue.
-func (w *world) releaseGate(key string) {
+// gate: the goroutines held back at one point of one router, in their order of arrival.
+type gate struct {
+	waiters []chan struct{}
+}
+
+// releaseGate lets the goroutines waiting at one gate (or, with key "", at every gate) continue - one at a time,
+// each running until it blocks or ends before the next one starts, in the order the scenario chooses (order 0: as
+// they arrived, 1: the latest first, k: starting with the k-th). Goroutines that the daemon started one after the
+// other do not have to get its lock in that order.
+func (w *world) releaseGate(key string, order int) {
 	w.gmu.Lock()
-	defer w.gmu.Unlock()
-	for k, ch := range w.gates {
+	var open []*gate
+	var keys []string
+	for k := range w.gates {
 		if key == "" || k == key || strings.HasPrefix(k, key) {
-			close(ch)
-			delete(w.gates, k)
+			keys = append(keys, k)
+		}
+	}
+	sort.Strings(keys)
+	for _, k := range keys {
+		open = append(open, w.gates[k])
+		delete(w.gates, k)
+	}
+	w.gmu.Unlock()
+	for _, g := range open {
+		ws := g.waiters
+		n := len(ws)
+		if n > 1 && order > 0 {
+			w.ctx.Probe("held-goroutines-released-out-of-order")
+		}
+		for i := 0; i < n; i++ {
+			j := i
+			switch {
+			case order == 1:
+				j = n - 1 - i
+			case order > 1:
+				j = (i + order) % n
+			}
+			close(ws[j])
+			synctest.Wait()
 		}
 	}
 }
@@ -698,8 +766,10 @@ func (w *world) gateHeld(n *node) bool {
 func (w *world) installGate() {
 	dv.VerifGate = func(router enc.Name, point string) {
 		w.gmu.Lock()
-		ch := w.gates[router.String()+"|"+point]
-		if ch != nil {
+		var ch chan struct{}
+		if g := w.gates[router.String()+"|"+point]; g != nil {
+			ch = make(chan struct{})
+			g.waiters = append(g.waiters, ch)
 			w.gateWaits++
 		}
 		w.gmu.Unlock()
@@ -765,7 +835,7 @@ func (w *world) stopNode(n *node) {
 		// that its management client drains its queue and can be stopped.
 		// The process is really stopped at the end of the run (see windDown).
 		n.alive = false
-		w.releaseGate(n.name.String() + "|")
+		w.releaseGate(n.name.String()+"|", 0)
 		w.zombies = append(w.zombies, n.router)
 		w.pump(2 * time.Millisecond)
 	}
@@ -1193,7 +1263,7 @@ func (e Engine) Run(t *testing.T, ctx *kit.Ctx, sc *kit.Scenario[Config, Op]) *k
 func (w *world) run() {
 	w.start = time.Now()
 	if w.gates == nil {
-		w.gates = map[string]chan struct{}{}
+		w.gates = map[string]*gate{}
 	}
 	w.installGate()
 	c := w.sc.Config
@@ -1265,12 +1335,12 @@ func (w *world) run() {
 			w.gmu.Lock()
 			k := fmt.Sprintf("%s|%s", w.nodes[o.R%c.N].name, o.Point)
 			if w.gates[k] == nil {
-				w.gates[k] = make(chan struct{})
+				w.gates[k] = &gate{}
 				w.ctx.Fault("goroutine-held-at-" + o.Point)
 			}
 			w.gmu.Unlock()
 		case "release":
-			w.releaseGate(fmt.Sprintf("%s|%s", w.nodes[o.R%c.N].name, o.Point))
+			w.releaseGate(fmt.Sprintf("%s|%s", w.nodes[o.R%c.N].name, o.Point), o.K)
 			w.pump(2 * time.Millisecond)
 		case "corrupt":
 			w.sortInflight()
@@ -1389,7 +1459,7 @@ func (w *world) run() {
 
 // windDown ends every goroutine of every router ever started (time stops when the bubble's root returns).
 func (w *world) windDown() {
-	w.releaseGate("")
+	w.releaseGate("", 0)
 	for _, n := range w.nodes {
 		w.stopNode(n)
 	}
@@ -1746,7 +1816,7 @@ func (w *world) stateDigest() uint64 {
 // settle: faults stop; the hub delivers everything (in canonical order), keeps ticking heartbeats and dead
 // checks, and time passes, until nothing changes any more. Then the fixed point is checked.
 func (w *world) settle() {
-	w.releaseGate("") // faults stop: no goroutine is held back any more
+	w.releaseGate("", 0) // faults stop: no goroutine is held back any more
 	w.pump(2 * time.Millisecond)
 	c := w.sc.Config
 	capDeliveries := w.deliveries + 50000
